@@ -425,10 +425,20 @@ def stack_program(spec):
                  (l['own'], l['n'], list(l['names']), l['mode']), x)
         return x
 
+    stepwise = bool(spec.get('stepwise'))
+
     def wrap(e):
+        # stepwise: the signature of every intermediate layer is retrieved (inspect and sigtools)
+        # right after the layer is built, before the next one is applied
         for i in range(d, 0, -1):
-            e = 'w%d(%s)' % (i, e)
+            e = 'w%d(%s)' % (i, '_peek(%s)' % e if stepwise else e)
         return e
+    if stepwise:
+        src[0] += ('import inspect as _inspect\nimport sigtools as _sigtools\n'
+                   'def _peek(o):\n'
+                   '    for fn in (_inspect.signature, _sigtools.signature):\n'
+                   '        try:\n            fn(o)\n        except Exception:\n            pass\n'
+                   '    return o\n')
     # the decorated callable may carry its own instance-level __signature__ (set by hand or by
     # modifiers.annotate), with or without a forger: update_wrapper copies it into the layer,
     # which must forget it again.  The effective signature is unchanged by construction.
@@ -463,6 +473,9 @@ def stack_program(spec):
             bases = ('types.MethodType(f_raw, K)', 'types.MethodType(f_raw, K)')
         access = [('K.f', 'K.f', bases[0], m_get(stored, False)),
                   ('K().f', 'INST.f', bases[1], m_get(stored, True))]
+        if pl in ('method', 'static_inner'):
+            # the very object stored in the class, without going through __get__
+            access.append(("K.__dict__['f']", "K.__dict__['f']", 'f_raw', stored))
     src.append('WRAPPERS = [%s]\n' % ', '.join('w%d_raw' % i for i in range(1, d + 1)))
     for j, (label, oe, be, mo) in enumerate(access):
         src.append('OBJ%d = %s\nBASE%d = %s\ndef ref%d(*args, **kwargs):\n    return %s\n' % (
@@ -504,17 +517,24 @@ def comb_program(spec):
             mobjs.append(plain)
             exprs.append('g%d' % j)
             refs.append('g%d(arg, *args, **kwargs)' % j)
+    k = 0
     if spec['nested'] and len(exprs) >= 2:
         k = spec['nested']
-        ce = 'wrappers.Combination(wrappers.Combination(%s)%s)' % (
-            ', '.join(exprs[:k]), ''.join(', ' + e for e in exprs[k:]))
+        src.append('INNER = wrappers.Combination(%s)\n' % ', '.join(exprs[:k]))
+        ce = 'wrappers.Combination(INNER%s)' % ''.join(', ' + e for e in exprs[k:])
     else:
         ce = 'wrappers.Combination(%s)' % ', '.join(exprs)
     src.append('C = %s\nclass K(object):\n    c = C\nINST = K()\n' % ce)
     src.append('WRAPPERS = []\nOBJ0 = C\nOBJ1 = INST.c\ndef ref0(arg, *args, **kwargs):\n%s    return arg\nref1 = ref0\n' %
                ''.join('    arg = %s\n' % r for r in refs))
     stored = ('comb', mobjs)
-    return ''.join(src), stored, [('C', 'C', None, stored), ('K().c', 'INST.c', None, stored)]
+    access = [('C', 'C', None, stored), ('K().c', 'INST.c', None, stored)]
+    if k:
+        # the Combination that was spliced into C is observed again afterwards: it must be unchanged
+        src.append('OBJ2 = INNER\ndef ref2(arg, *args, **kwargs):\n%s    return arg\n' %
+                   ''.join('    arg = %s\n' % r for r in refs[:k]))
+        access.append(('INNER', 'INNER', None, ('comb', mobjs[:k])))
+    return ''.join(src), stored, access
 
 
 _PROG_N = [0]
@@ -744,7 +764,7 @@ def examine(ns, j, label, mobj, calls, prog_kind, want=None, rng=None, nguided=0
 
 def check_pair_c(ns, access, infos):
     """(c) binding as a method removes exactly the first parameter (names and kinds)"""
-    (l0, _, _, m0), (l1, _, _, m1) = access
+    (l0, _, _, m0), (l1, _, _, m1) = access[:2]
     s0, s1 = infos[0]['ssig'], infos[1]['ssig']
     if s0[0] != 'ok' or s1[0] != 'ok':
         return None
@@ -809,6 +829,7 @@ def gen_stack_spec(rng, U_f, U_owns):
         # consumed and no layer may also write it as a literal keyword (every call would fail)
         for l in layers:
             l['names'] = [k for k in l['names'] if k != fparams[0][0]]
+    spec['stepwise'] = rng.random() < 0.5
     r = rng.random()
     named = [p[0] for p in fparams if p[1] in ('PO', 'PK', 'KO')]
     if r < 0.25:
@@ -1065,9 +1086,10 @@ def process_program(rep, kind, spec, src, stored, access, rng, cap, stats, coq_s
                 # non-trivial: the reported signature differs from the generic (own, *args, **kwargs)
                 rep.distinct.add((tuple(shape_of(mr[1])), len(m_wrappers(mobj))))
         if want_coq and sum(1 for x in coq_sample if x[2] == kind) < want_coq[0]:
-            ak = 'direct' if (kind == 'comb' or label == 'f') else ('class' if label == 'K.f' else 'inst')
+            ak = 'direct' if (kind == 'comb' or label == 'f' or label.startswith('K.__dict__')) \
+                else ('class' if label == 'K.f' else 'inst')
             try:
-                term = coq_case(stored, ak, ns, j, calls[:6] + calls[-8:], info)
+                term = coq_case(mobj if kind == 'comb' else stored, ak, ns, j, calls[:6] + calls[-8:], info)
                 coq_sample.append(('%s of\n%s' % (label, src), term, kind))
             except ValueError:
                 stats['coq_skipped'] += 1
